@@ -160,6 +160,10 @@ let () =
             Hashtbl.replace tabs (kd ^ name) v
           end
       | [ "TAB"; _ ] -> ()
+      | "MCDF" :: kd :: _ :: ws ->
+          (* the constructor's "make cumulative" + "normalize" on the masked bin values *)
+          let c = masked_cdf o (List.map fl_of_hex ws) in
+          Printf.printf "T %s cdf %d %s\n" kd (List.length c) (String.concat " " (List.map hex c))
       | [ "CHK"; kd ] ->
           (* table conditions the range theorems need, decided by the extracted checkers *)
           let si = strictly_increasing o and wi = weakly_increasing o in
@@ -167,6 +171,10 @@ let () =
             match kd with
             | "P" -> wi (get_tab "Pcdf") && si (get_tab "Plogfreq") && wi (get_tab "Plogcdf")
             | "Q" -> wi (get_tab "Qcdf") && si (get_tab "Qfreq")
+            | "M" | "N" ->
+                (* masked spectrum: the range theorem also needs the table to start at 0 *)
+                let c = get_tab (kd ^ "cdf") in
+                wi c && si (get_tab (kd ^ "freq")) && (match c with c0 :: _ -> not (o.o_lt c0 (zero o)) && not (o.o_lt (zero o) c0) | [] -> false)
             | _ -> si (get_tab (kd ^ "freq")) && si (get_tab (kd ^ "temp")) && List.for_all wi (get_cdfs kd)
           in
           Printf.printf "CHK %s %b\n" kd ok
@@ -176,6 +184,7 @@ let () =
             match kd with
             | "P" -> sample_planck o (get_tab "Pcdf") (get_tab "Plogcdf") (get_tab "Plogfreq") x
             | "Q" -> sample_linear o (get_tab "Qfreq") (get_tab "Qcdf") x
+            | "M" | "N" -> sample_linear o (get_tab (kd ^ "freq")) (get_tab (kd ^ "cdf")) x
             | _ -> sample_lyman o gen_lyman_clamps (get_tab (kd ^ "freq")) (get_tab (kd ^ "temp")) (get_cdfs kd) t x
           in
           Printf.printf "S %s\n" (hexo r)
